@@ -8,11 +8,13 @@ CONSTANTS Design = "copy"
           MaxBufs = {0, 100}
           MaxWaits = {5}
           ZipMins = {0, 100}
-          QCaps = {1}
+          QCaps = {2}
           Keeps = {TRUE}
-          Gates = {FALSE}
+          Gates = {FALSE, TRUE}
           MaxDirect = 0
           Reconfig = FALSE
+          EarlyFlush = FALSE
+          WithDefaults = TRUE
 INVARIANTS ExactlyOnceInOrder CountMatches Decodable ZipIff DefaultsInForce HandedOverIsImmutable
 PROPERTIES FlushWhenDue
 CHECK_DEADLOCK FALSE
